@@ -12,7 +12,9 @@ NON_ASCII = " \u2014 g\u00e9n\u00e9r\u00e9 \u0e2a\u0e23\u0e49\u0e32\u0e07 \u751f
 
 INT_POOL = [7, 12, 13, 17, 23, 37, 42, 60, 64, 99, 128, 255, 256, 360, 404, 500, 512, 1024, 3600, 4096, 8080, 65535, 86400, 123456]
 SMALL = [0, 1, 2, 3, 4, 5, 6, 8, 9, 10, 11, 15, 20, 21]
-FLOATS = ["1.5", "2.75", "0.25", "3.14159", "99.9", "2.5e-3", "6.02e23", "0.001", "0.0"]
+FLOATS = ["1.5", "2.75", "0.25", "3.14159", "99.9", "2.5e-3", "6.02e23", "0.001", "0.0",
+          # magnitudes at which a formatter switches notation or runs out of digits
+          "2.5e-7", "1e-9", "1.5e-6", "1e-12", "0.00001234", "4.2e+15", "1e21", "123456789.125", "1e16", "9007199254740993.0"]
 
 
 BOUNDARY = [0, 0, 1, 2, 3, 4, 5, 10, 100, 1000]  # the values of the default allowed list (zero twice: it is falsy as well)
@@ -210,7 +212,7 @@ def ts_literal(rng, used, forms=True):
         v = _fresh(rng, used)
         return str(v), v
     if r < 0.75:
-        t = rng.choice(["1.5", "2.75", "0.25", "3.14159", "99.9", "2.5e-3", "0.001", "1e3", ".5"])
+        t = rng.choice(["1.5", "2.75", "0.25", "3.14159", "99.9", "2.5e-3", "0.001", "1e3", ".5", "2.5e-7", "1e-9", "1.5e-6", "4.2e+15", "1e21", "123456789.125"])
         return _recase(rng, t), float(t)
     v = _fresh(rng, used)
     if r < 0.85:
@@ -313,7 +315,7 @@ def rs_literal(rng, used, forms=True):
         v = _fresh(rng, used)
         return str(v), v
     if r < 0.68:
-        t = rng.choice(["1.5", "2.75", "0.25", "3.14159", "99.9", "0.001"])
+        t = rng.choice(["1.5", "2.75", "0.25", "3.14159", "99.9", "0.001", "2.5e-7", "1e-9", "1.5e-6", "4.2e15", "123456789.125"])
         return t, float(t)
     v = _fresh(rng, used)
     if r < 0.76:
